@@ -69,7 +69,18 @@ impl SubscriptionManager {
             async move {
                 #[cfg(deltio_verif)]
                 crate::verif::point("manager.create.attach").await;
-                topic.attach_subscription(subscription).await
+                topic.attach_subscription(Arc::clone(&subscription)).await?;
+
+                // The subscription is visible to other requests since it was registered. If it
+                // was deleted before it got attached, the deletion's removal from the topic may
+                // have come too early: take it off the topic again, so that the topic is not
+                // left posting to a subscription that is gone.
+                if subscription.deletion_started() {
+                    let _ = topic.remove_subscription(subscription.name.clone()).await;
+                    return Err(AttachSubscriptionError::Closed);
+                }
+
+                Ok(())
             }
         });
         attach
